@@ -189,6 +189,11 @@ impl CacheBuffer {
     /// Reserve capacity for buffer
     pub fn reserve(&mut self, capacity: usize) {
         self.data_buffer.reserve(capacity);
+        // the storage may have moved: data_slice must follow it
+        if self.data_slice.is_some() {
+            let data_ptr = self.data_buffer.as_ptr();
+            self.data_slice = Some(unsafe { std::slice::from_raw_parts(data_ptr, self.data_buffer.len()) });
+        }
     }
     
     /// Get buffer capacity
